@@ -1,6 +1,7 @@
 package props
 
 import (
+	crand "crypto/rand"
 	"fmt"
 	"net"
 	"os"
@@ -41,13 +42,15 @@ type C14 struct {
 	User       string `json:"user"`
 	Password   string `json:"password"`
 	SrvPass    bool   `json:"server_accepts_password"`
+	// CertBesideKey: a certificate the server rejects lies next to the configured key file
+	CertBesideKey bool `json:"cert_beside_key,omitempty"`
 	// Kbd: the server takes the password through keyboard-interactive only, asking this question
-	Kbd     string `json:"kbd_question,omitempty"`
-	KbdEcho bool   `json:"kbd_echo,omitempty"`
-	SrvKey     bool   `json:"server_accepts_key"`
-	WrongPass  bool   `json:"client_has_wrong_password"`
-	Netconf    bool   `json:"netconf"`
-	Cell       int    `json:"cell"`
+	Kbd       string `json:"kbd_question,omitempty"`
+	KbdEcho   bool   `json:"kbd_echo,omitempty"`
+	SrvKey    bool   `json:"server_accepts_key"`
+	WrongPass bool   `json:"client_has_wrong_password"`
+	Netconf   bool   `json:"netconf"`
+	Cell      int    `json:"cell"`
 	// Prior, when set, is the state of the same known-hosts file during an earlier connection of
 	// the same process (strict checking on); the file is rewritten before the connection judged
 	Prior string `json:"prior_known_hosts,omitempty"`
@@ -79,6 +82,7 @@ func genC14(seed uint64, run int, tier string) Scenario {
 	sc.User = word(r, lower, 1, 10)
 	sc.Password = genSecret(r, "pw-")
 	sc.SrvPass = r.IntN(5) != 0
+	sc.CertBesideKey = kernel.Stream(rs, "cert").IntN(4) == 0
 	if kr := kernel.Stream(rs, "kbd"); kr.IntN(4) == 0 {
 		sc.Kbd = pick(kr, "Password: ", "Password:", "Enter your PIN or password: ", sc.User+"'s response: ")
 		sc.KbdEcho = kr.IntN(2) == 0
@@ -132,6 +136,16 @@ func runC14(env *Env, s Scenario) {
 	clientSigner, clientPEM := peer.NewClientKey()
 	keyPath := filepath.Join(dir, "id_ed25519")
 	_ = os.WriteFile(keyPath, clientPEM, 0o600)
+	if sc.CertBesideKey {
+		// a certificate for the key lies next to it (<key>-cert.pub, as ssh-keygen -s leaves it),
+		// signed by an authority this server does not know: the configured key is the identity
+		ca := peer.NewHostKey()
+		cert := &ssh.Certificate{Key: clientSigner.PublicKey(), CertType: ssh.UserCert, KeyId: "vsim", ValidPrincipals: []string{sc.User}, ValidBefore: ssh.CertTimeInfinity}
+		if err := cert.SignCert(crand.Reader, ca); err == nil {
+			_ = os.WriteFile(keyPath+"-cert.pub", ssh.MarshalAuthorizedKey(cert), 0o600)
+			env.Probe("certificate-beside-the-key")
+		}
+	}
 	addr := fmt.Sprintf("%s:%d", sc.Host, sc.Port)
 	khPath := filepath.Join(dir, "known_hosts")
 	khOpt := khPath
